@@ -207,6 +207,10 @@ pub enum G {
     /// configuration that overrides (part of) bounds already set on the parser; kind 0 = exactly, 1 = at_most,
     /// 2 = at_least.  Effective bounds: each configured field replaces the static one.
     RepCtxPre(Box<G>, Bounds, u8),
+    /// a repetition configured from the context and used WITHOUT collecting: kind 0/1/2 = `configure(exactly)`,
+    /// `configure(at_most)`, `try_configure(exactly, error for 'c')` used directly as a unit parser (-> `U`);
+    /// kind 3/4/5 = the same three through `.count()` (-> `N`)
+    CtxBare(u8, Box<G>),
     /// `g.map(items_of).into_iter().<sink>`: a parser whose output is iterated (`Parser::into_iter`)
     IntoIter(Box<G>, Sink),
     /// iterable parsers chained with `IterParser for Then` (`p1.then(p2)`, items of p1 followed by the items of
@@ -229,7 +233,7 @@ impl G {
             Map(a) | To(a) | Ignored(a) | Filter(a) | TryMap(a) | TryMapWith(a) | OrNot(a)
             | Not(a) | Rewind(a) | Boxed(a) | ToSlice(a) | ToSpan(a) | Validate(a, _)
             | Labelled(a, _) | MapErr(a) | Memo(a) | WithState(a) | NestedDelims(a)
-            | WithCtx(_, a) | MapCtx(a) | RepCtx(a) | RepCtxMax(a) | TryRepCtx(a) | RepCtxPre(a, _, _) | Snd(a) | Fst(a) | MapUnit(a)
+            | WithCtx(_, a) | MapCtx(a) | RepCtx(a) | RepCtxMax(a) | TryRepCtx(a) | RepCtxPre(a, _, _) | CtxBare(_, a) | Snd(a) | Fst(a) | MapUnit(a)
             | MapZ(a) | SliceWith(a) | SpanWith(a) | Mid(a) | Lazy(a) | Ext(a, _) | CustomNest(a) | Rec(a, _) => vec![a],
             Rep(a, _, s) | IntoIter(a, s) => {
                 let mut v = vec![&**a];
@@ -352,7 +356,7 @@ pub fn nullable(g: &G) -> bool {
                 _ => me,
             }
         }
-        RepCtx(_) | RepCtxMax(_) | TryRepCtx(_) | RepCtxPre(..) => true,
+        RepCtx(_) | RepCtxMax(_) | TryRepCtx(_) | RepCtxPre(..) | CtxBare(..) => true,
         IntoIter(a, sink) => nullable(a) && sink.child().map(nullable).unwrap_or(true),
         // conservative: every link may yield nothing without consuming
         IterChain(ps, sink) => {
@@ -649,6 +653,7 @@ impl fmt::Display for G {
                 bd(f, x)?;
                 write!(f, ";{}]({})", k, a)
             }
+            CtxBare(k, a) => write!(f, "ctx_bare{}({})", k, a),
             IntoIter(a, k) => {
                 write!(f, "into_iter[")?;
                 sink(f, k)?;
@@ -1008,6 +1013,10 @@ impl<'a> P<'a> {
                 SepBy(a, c, x, l, t, s)
             }
             o => {
+                if let Some(rest) = o.strip_prefix("ctx_bare") {
+                    let k: u8 = rest.parse().map_err(|e| format!("ctx_bare kind: {e}"))?;
+                    return Ok(CtxBare(k, un(self)?));
+                }
                 if let Some(rest) = o.strip_prefix("validate") {
                     let id: u8 = rest.parse().map_err(|e| format!("validate id: {e}"))?;
                     Validate(un(self)?, id)
